@@ -128,6 +128,7 @@ type rfRun struct {
 	errCalls   int // API calls that reported an error
 	emptyCalls int
 	recovered  int // calls that succeeded after a transient fault ended
+	verified   int // full re-reads with fresh objects after a transient fault
 	trace      uint64
 }
 
@@ -206,6 +207,34 @@ func runRFaultOnce(ws *WSeg, prog []ROp, fault *ReadFault, maxReadsPerCall int, 
 				out.fail = &Fail{Prop: "C19", Oracle: "read-fault", Kind: "lock", Site: ROpNames[op.Kind], Detail: fmt.Sprintf("%s: after op #%d (%s) the segment mutex is still held", label, oi, ROpNames[op.Kind])}
 				return
 			}
+		}
+		// a transient fault is over: the segment is immutable, so everything read
+		// through FRESH objects (new dictionaries, lists, readers) must be what it
+		// was before - a failed read may break the object it hit, never the segment
+		if fault != nil && fault.Count > 0 && ra.Calls() >= base+fault.From+fault.Count {
+			for oi := range prog {
+				op := &prog[oi]
+				if op.Kind == ROpPersist || op.Kind == ROpSize {
+					continue
+				}
+				var got *RRes
+				var err error
+				pi := Guard(func() { got, err = ExecROp(ws, seg, op, &ropHooks{sched: sched}) })
+				where := fmt.Sprintf("%s: after the fault ended, op #%d (%s) repeated with fresh objects", label, oi, ROpNames[op.Kind])
+				if pi != nil {
+					out.fail = &Fail{Prop: "C19", Oracle: "read-fault", Kind: "panic", Site: pi.Site, Detail: where + " panicked: " + pi.Msg}
+					return
+				}
+				if err != nil {
+					out.fail = &Fail{Prop: "C15", Oracle: "immutability", Kind: "error", Site: "after-transient-fault", Detail: fmt.Sprintf("%s failed although the storage is healthy again: %v", where, err)}
+					return
+				}
+				if d := DiffRRes(got, ExpectROp(ws, op)); d != "" {
+					out.fail = mismatch("C15", "immutability", "after-transient-fault:"+ROpNames[op.Kind], where+" no longer reads what the segment holds: "+d)
+					return
+				}
+			}
+			out.verified++
 		}
 		// afterwards every kind of lookup must still return
 		for _, f := range ropNames(ws) {
@@ -317,6 +346,7 @@ func runRFaultCase(c *Case, env *Env) *Result {
 		res.fault(kind, 1, fired)
 		res.probeN("calls-reporting-error", r.errCalls)
 		res.probeN("calls-recovered-after-transient-fault", r.recovered)
+		res.probeN("segment-re-read-with-fresh-objects-after-transient-fault", r.verified)
 		if r.hung != nil {
 			res.Fail = hang(r, label)
 			return false
